@@ -124,6 +124,15 @@ def rand_job(seed):
         for s in m:
             if s['k'] == 'function' and rnd.random() < 0.3 and s['args']:
                 s['args'] = s['args'] + [s['args'][0]]
+            if s['k'] == 'function' and rnd.random() < 0.25:
+                # several dangling jumps / unused labels with varied names in ONE scope (the order of the warnings is part of
+                # "the same model always gives the same warnings")
+                for nm in rnd.sample(['alpha', 'Lx', 'b2', 'zz', 'Q', 'mid', 'k9'], rnd.randint(2, 4)):
+                    s['body'].insert(rnd.randint(0, len(s['body'])), {'k': 'jump', 'label': nm, 'hasE': True, 'e': gen_jump.var('false')}
+                                     if rnd.random() < 0.6 else {'k': 'label', 'v': nm})
+        if rnd.random() < 0.2:
+            for nm in rnd.sample(['alpha', 'Lx', 'b2', 'zz', 'Q', 'mid', 'k9'], rnd.randint(2, 4)):
+                m.insert(rnd.randint(0, len(m)), {'k': 'jump', 'label': nm, 'hasE': True, 'e': gen_jump.var('false')})
         return cases_for(A.gmodel(m), gen_jump.default_globals(rnd))
     prog = gen_struct.rprogram(rnd, maxdepth=rnd.choice([2, 3, 4]))
     text = '\n'.join(A.struct_text(prog)) + '\n'
@@ -159,16 +168,18 @@ json.dump(out, sys.stdout)
 
 def other_processes(cases, limit):
     """"the same model always gives the same warnings" - also in another interpreter process with another string-hash seed:
-    the sampled lint cases are linted again in fresh processes (PYTHONHASHSEED 1 and 2); a different list clears same2"""
+    the sampled lint cases are linted again in fresh processes (PYTHONHASHSEED 1 to 4); a different list clears same2"""
     import os
     import subprocess
     import sys
     pick = [c for c in cases if c['kind'] == 'lint' and len(c['warnings']) >= 2 and not c['raised']
-            and not any(s['k'] == 'include' for s in c['model'])][:limit]
+            and not any(s['k'] == 'include' for s in c['model'])]
+    pick.sort(key=lambda c: -len(c['warnings']))        # the more warnings, the more orders there are to get wrong
+    pick = pick[:limit]
     if not pick:
         return 0
     payload = json.dumps([c['model'] for c in pick])
-    for seed in ('1', '2'):
+    for seed in ('1', '2', '3', '4'):
         env = dict(os.environ, PYTHONHASHSEED=seed)
         r = subprocess.run([sys.executable, '-c', OTHER_PROCESS], input=payload, capture_output=True, text=True, env=env, timeout=1200, check=False)
         if r.returncode != 0:
